@@ -16,6 +16,9 @@
 //   prim  := b s n u i f c ;  opt := q (required) | o (optional) | f (forbidden)
 //   obj   := A k obj*k | D k (keyhex obj)*k | S k (keyhex obj)*k start hex | R num gen | B 0|1
 //          | Z hex | N hex | U | C hex | I int | F num den
+// Sequence line (C09; see lean/Driver/C09Seq.lean): several checks on ONE context
+//   seq <ctx> <graph> k (stepchk obj)*k
+//   stepchk := n name | rep | m name rep | e i | ea i | eg i | eb i | et i rep | g name rep
 use parsley_rust::pcore::parsebuffer::LocatedVal;
 use parsley_rust::pdf_lib::pdf_obj::{
     ArrayT, DictKey, DictT, IndirectT, PDFObjContext, PDFObjT, ReferenceT, StreamT,
@@ -24,6 +27,7 @@ use parsley_rust::pdf_lib::pdf_prim::{IntegerT, NameT, RealT, StreamContentT};
 use parsley_rust::pdf_lib::pdf_type_check::{
     check_type, verif_reset_steps, verif_steps, ChoicePred, DictEntry, DictKeySpec, DictStarEntry,
     IndirectSpec, PDFPrimType, PDFType, Predicate, TypeCheck, TypeCheckContext, TypeCheckError,
+    TypeCheckRep,
 };
 use std::collections::{BTreeMap, HashMap};
 use std::rc::Rc;
@@ -50,7 +54,7 @@ pub fn unhex(s: &str) -> Vec<u8> {
     v
 }
 
-type Obj = Rc<LocatedVal<PDFObjT>>;
+pub type Obj = Rc<LocatedVal<PDFObjT>>;
 
 struct TruePred;
 impl Predicate for TruePred {
@@ -107,7 +111,7 @@ impl<'a> Dec<'a> {
         self.i += 1;
         s
     }
-    fn num(&mut self) -> usize { self.tok().parse().unwrap() }
+    pub fn num(&mut self) -> usize { self.tok().parse().unwrap() }
     pub fn done(&self) -> bool { self.i == self.t.len() }
 
     pub fn raw_obj(&mut self) -> PDFObjT {
@@ -263,20 +267,29 @@ impl<'a> Dec<'a> {
     }
     // a check; `reg` = Some((ctx, name)) registers the rep in the real context under `name`
     fn rep(&mut self, reg: Option<(&mut TypeCheckContext, &str)>) -> Rc<TypeCheck> {
+        match reg {
+            Some((tctx, name)) => {
+                let (typ, pred, ind) = self.rep_parts();
+                Self::construct(tctx, name, Rc::new(typ), pred, ind)
+            },
+            None => self.rep_scratch(""),
+        }
+    }
+    fn rep_parts(&mut self) -> (PDFType, Option<Rc<dyn Predicate>>, IndirectSpec) {
         let t = self.tok();
         assert!(t == "r", "expected r, got {}", t);
         let pred = self.pred();
         let ind = self.ind();
-        let typ = Rc::new(self.typ());
-        match reg {
-            Some((tctx, name)) => Self::construct(tctx, name, typ, pred, ind),
-            None => {
-                let mut scratch = std::mem::replace(&mut self.scratch, TypeCheckContext::new());
-                let r = Self::construct(&mut scratch, "", typ, pred, ind);
-                self.scratch = scratch;
-                r
-            },
-        }
+        let typ = self.typ();
+        (typ, pred, ind)
+    }
+    // a representation that carries `name` and is NOT registered in the real context
+    fn rep_scratch(&mut self, name: &str) -> Rc<TypeCheck> {
+        let (typ, pred, ind) = self.rep_parts();
+        let mut scratch = std::mem::replace(&mut self.scratch, TypeCheckContext::new());
+        let r = Self::construct(&mut scratch, name, Rc::new(typ), pred, ind);
+        self.scratch = scratch;
+        r
     }
     // The constructor client code would call for these attributes (the shipped specifications use all
     // four): no predicate and indirect objects allowed -> TypeCheck::new; a predicate only ->
@@ -303,14 +316,57 @@ impl<'a> Dec<'a> {
             self.rep(None)
         }
     }
-    pub fn ctx(&mut self) -> TypeCheckContext {
+    pub fn ctx(&mut self) -> TypeCheckContext { self.ctx_entries().0 }
+    // the context and the checks its constructors returned, in order of registration (an
+    // earlier one may be shadowed in the context by a later one of the same name)
+    pub fn ctx_entries(&mut self) -> (TypeCheckContext, Vec<Rc<TypeCheck>>) {
         let mut tctx = TypeCheckContext::new();
+        let mut ents = Vec::new();
         let k = self.num();
         for _ in 0 .. k {
             let name = self.tok();
-            self.rep(Some((&mut tctx, name)));
+            ents.push(self.rep(Some((&mut tctx, name))));
         }
-        tctx
+        (tctx, ents)
+    }
+    // the check of one step of a sequence (C09): besides `n name` and an anonymous `rep`, the
+    // entries' own representations and the same-named variants client code can derive from them
+    // with the crate's public API; `g name rep` constructs (= registers) on the real context.
+    #[allow(dead_code)]
+    pub fn step_chk(
+        &mut self, tctx: &mut TypeCheckContext, ents: &[Rc<TypeCheck>],
+    ) -> Rc<TypeCheck> {
+        match self.t[self.i] {
+            form @ ("e" | "ea" | "eg" | "eb" | "et") => {
+                self.i += 1;
+                let i = self.num();
+                let r = match ents[i].as_ref() {
+                    TypeCheck::Rep(r) => Rc::clone(r),
+                    TypeCheck::Named(_) => panic!("entry is not a representation"),
+                };
+                match form {
+                    "e" => Rc::clone(&ents[i]),
+                    "ea" => Rc::new(TypeCheck::Rep(r.allow_indirect())),
+                    "eg" => r.split_disjunct().0,
+                    "eb" => r.split_disjunct().1,
+                    _ => {
+                        let (typ, _, _) = self.rep_parts();
+                        Rc::new(TypeCheck::Rep(TypeCheckRep::new_replace_typ(typ, &r)))
+                    },
+                }
+            },
+            "m" => {
+                self.i += 1;
+                let name = self.tok();
+                self.rep_scratch(name)
+            },
+            "g" => {
+                self.i += 1;
+                let name = self.tok();
+                self.rep(Some((tctx, name)))
+            },
+            _ => self.chk(),
+        }
     }
     pub fn graph(&mut self) -> PDFObjContext {
         let mut ctxt = PDFObjContext::new(10);
@@ -365,9 +421,13 @@ pub fn decode(line: &str) -> Option<Case> {
 }
 
 /// runs the real check_type; returns (verdict text, work-loop steps)
-pub fn run_case(c: &Case) -> (String, u64) {
+pub fn run_case(c: &Case) -> (String, u64) { run_one(&c.ctxt, &c.tctx, &c.obj, &c.chk) }
+
+pub fn run_one(
+    ctxt: &PDFObjContext, tctx: &TypeCheckContext, obj: &Obj, chk: &Rc<TypeCheck>,
+) -> (String, u64) {
     verif_reset_steps();
-    let r = check_type(&c.ctxt, &c.tctx, Rc::clone(&c.obj), Rc::clone(&c.chk));
+    let r = check_type(ctxt, tctx, Rc::clone(obj), Rc::clone(chk));
     let steps = verif_steps();
     let v = match r {
         None => "accept".to_string(),
